@@ -115,6 +115,13 @@ def run_case(sim, seed, i):
     stats["runs"] += 1
     if not (good.get("status") == "returned" and good.get("exit_code") == 0):
         stats["skipped"] = "generator_rejected"
+        # whatever made the command fail on the package as generated (a rule this workload generator does not know, an error
+        # that only a code generator notices): it failed, so it must not have written anything either
+        if good.get("status") == "returned" and good.get("ops") is not None:
+            muts = mutations_under(good["ops"], outs)
+            if muts:
+                viols.append(({"class": "output_touched_despite_error", "location": "as_generated", "first": (muts[0]["op"] + " " + muts[0]["path"]).replace("/w/", "")[:160]},
+                              {"mode": "invalid", "files": valid_files, "pre_files": {}, "pre_dirs": [], "outs": outs, "mapseed": ms, "seed": seed, "case": desc, "expect": "untouched"}))
         return stats, viols
     stats["valid_original_wrote"] = len(mutations_under(good["ops"], outs))
     prepopulate = rng.chance(0.6)
